@@ -7,6 +7,65 @@ From CCT.proofs Require Import HexFacts SigFacts AuthFacts SignableFacts Delegat
 From Coq Require Import Lia Permutation.
 Open Scope N_scope.
 
+(* ---- the byte layer of json.load: on ASCII text without NUL the encoding guess is UTF-8, there is no byte-order mark to strip
+   and decoding is the identity *)
+Lemma lex_nul st r : lex st (0 :: r) = None.
+Proof. destruct st; reflexivity. Qed.
+
+Lemma lex_In_nul s : In 0 s -> forall st, lex st s = None.
+Proof.
+  induction s as [|c s IH]; intros Hin st; [destruct Hin|].
+  destruct (N.eq_dec c 0) as [->|Hc]; [apply lex_nul|].
+  assert (Hs : In 0 s) by (destruct Hin as [E|E]; [congruence|exact E]).
+  destruct st; cbn [lex].
+  - destruct (is_atom_char c); [apply IH; exact Hs|]. destruct (is_json_ws c); [rewrite IH by exact Hs; reflexivity|].
+    destruct (c =? 34); [rewrite IH by exact Hs; reflexivity|]. destruct (punct c); [rewrite IH by exact Hs; reflexivity|reflexivity].
+  - destruct (is_atom_char c); [apply IH; exact Hs|]. destruct (is_json_ws c); [rewrite IH by exact Hs; reflexivity|].
+    destruct (c =? 34); [rewrite IH by exact Hs; reflexivity|]. destruct (punct c); [rewrite IH by exact Hs; reflexivity|reflexivity].
+  - destruct (c =? 34); [rewrite IH by exact Hs; reflexivity|]. destruct (c =? 92); [apply IH; exact Hs|].
+    destruct (c <? 32); [reflexivity|apply IH; exact Hs].
+  - destruct (c =? 117); [apply IH; exact Hs|]. destruct (simple_escape c); [apply IH; exact Hs|reflexivity].
+  - destruct (hexval c); [|reflexivity]. destruct k as [|[|k]]; [reflexivity| |apply IH; exact Hs].
+    destruct (hi && is_low (16 * v + n)); [destruct acc; [reflexivity|apply IH; exact Hs]|apply IH; exact Hs].
+Qed.
+
+Lemma parse_no_nul s v : parse s = Some v -> ~ In 0 s.
+Proof. intros H Hin. unfold parse in H. rewrite (lex_In_nul s Hin) in H. discriminate. Qed.
+
+Lemma utf8_decode_ascii b : ascii b -> utf8_decode b = Some b.
+Proof.
+  induction 1 as [|c b Hc _ IH]; [reflexivity|]. cbn [utf8_decode].
+  assert ((c <? 128) = true) as -> by (apply N.ltb_lt; exact Hc). rewrite IH. reflexivity.
+Qed.
+
+Lemma strip_bom_ascii b : ascii b -> strip_bom b = b.
+Proof.
+  intros H. destruct b as [|c b]; [reflexivity|]. inversion H as [|? ? Hc _]; subst.
+  unfold strip_bom. destruct c as [|p]; [reflexivity|]. do 8 (destruct p as [p|p|]; try reflexivity); exfalso; cbn in Hc; lia.
+Qed.
+
+Lemma guessed_utf8_text b : ascii b -> ~ In 0 b -> guessed_utf8 b = true.
+Proof.
+  intros Ha Hn.
+  assert (Hz : forall c, In c b -> (c =? 0) = false /\ c < 128).
+  { intros c Hc. split; [apply N.eqb_neq; intros ->; apply Hn; exact Hc|]. unfold ascii in Ha. rewrite Forall_forall in Ha. apply Ha; exact Hc. }
+  destruct b as [|b0 [|b1 r]]; [reflexivity| |].
+  - destruct (Hz b0 (or_introl eq_refl)) as [_ H0]. unfold guessed_utf8.
+    destruct b0 as [|p]; [reflexivity|]. do 8 (destruct p as [p|p|]; try reflexivity); exfalso; cbn in H0; lia.
+  - destruct (Hz b0 (or_introl eq_refl)) as [Z0 H0]. destruct (Hz b1 (or_intror (or_introl eq_refl))) as [Z1 H1].
+    assert (G : guessed_utf8 (b0 :: b1 :: r) = match r with [] => negb (b0 =? 0) && negb (b1 =? 0) | [_] => true | _ :: _ :: _ => negb (b0 =? 0) && negb (b1 =? 0) end).
+    { unfold guessed_utf8. destruct b0 as [|p]; [destruct r as [|? [|? ?]]; reflexivity|].
+      do 8 (destruct p as [p|p|]; try (destruct r as [|? [|? ?]]; reflexivity)); exfalso; cbn in H0; lia. }
+    rewrite G, Z0, Z1. destruct r as [|? [|? ?]]; reflexivity.
+Qed.
+
+Theorem load_file_canonical v : jdom v = true -> load_file (pser 0 v) = Ok (canon v).
+Proof.
+  intros Hd. pose proof (pser_ascii v 0%nat Hd) as Ha. pose proof (parse_pser v Hd) as Hp.
+  unfold load_file. rewrite (guessed_utf8_text _ Ha (parse_no_nul _ _ Hp)). cbn [negb].
+  rewrite (strip_bom_ascii _ Ha), (utf8_decode_ascii _ Ha), Hp. reflexivity.
+Qed.
+
 (* write_metadata_to_file then load_metadata_from_file *)
 Definition store_load (v : pv) : res pv :=
   b <- canonserialize v ;; match load_bytes b with Some v' => Ok v' | None => Err JSONDecodeError end.
@@ -14,7 +73,7 @@ Definition store_load (v : pv) : res pv :=
 Theorem load_write v : jdom v = true -> store_load v = Ok (canon v).
 Proof.
   intros Hd. unfold store_load, canonserialize, load_bytes. rewrite ser_pser by exact Hd. cbn [bind].
-  rewrite parse_pser by exact Hd. reflexivity.
+  rewrite load_file_canonical by exact Hd. reflexivity.
 Qed.
 
 (* the loaded value is the same JSON value: canonical forms agree, canonical bytes are unchanged *)
